@@ -20,12 +20,14 @@ FUNCTIONS = {
            + [('select_c03', 'filter.Filter.global_setup')]
            # ... and finds it by the name the parent computed: the two name functions over the shared name cache
            + [('names_c01', 'find.name_from_layer'), ('names_c01', 'runner.layer_from_name')],
-    'C02': [(L, 'runner.handle_layer_failure'), (L, 'runner.tear_down_unneeded'), (L, 'runner.run_layer'),
+    'C02': [(L, 'runner.handle_layer_failure'), (L, 'runner.handle_layer_failure@unprintable'), (L, 'runner.tear_down_unneeded'), (L, 'runner.run_layer'),
             RUN_TESTS, RUNNER_LOOP, ('runner_spawn', 'runner.spawn_layer_in_subprocess'),
             # import errors are bad outcomes too: they reach the verdict through tests_from_suite / find_tests
             ('find_c09', 'find.tests_from_suite'), ('select_c03', 'find.find_tests'), ('select_c03', 'find.find_tests@order'), ('find_c02', 'find.Find.global_setup'),
             ('find_c14', 'find.find_suites'),              # whatever a test module raises on import becomes an import error
-            ('features_c18', 'runner.Runner.run')],
+            ('features_c18', 'runner.Runner.run')]
+           # copying a child's output can never raise (it would be turned into a 'subprocess for <layer>' error of a passing run)
+           + [('runner_sched', 'runner._get_output_buffer'), ('runner_sched', 'runner.ImmediateSubprocessResult.__init__'), ('runner_sched', 'runner.ImmediateSubprocessResult.write')],
     'C07': [('runner_spawn', 'runner.spawn_layer_in_subprocess'), ('process_c07', 'process.SubProcess.report'),
             ('formatter_c13', 'process.SubProcess.global_setup'),
             ('features_c18', 'runner.Runner.run')],        # the child reports only after a test phase that ended normally
@@ -97,7 +99,8 @@ FUNCTIONS = {
             ('process_c07', 'process.SubProcess.report'),       # sentence 1 composes the lossless transfer (C07)
             # what of a child's stdout is kept for its block: everything but the keep-alive dot lines (regex lemma)
             ('runner_sched', 'runner.DeferredSubprocessResult.write'), ('runner_sched', 'runner.KeepaliveSubprocessResult.write'),
-            ('select_c03', 'filter.Filter.global_setup')],      # sentence 1: the child of a layer runs exactly that layer (name equality)
+            ('select_c03', 'filter.Filter.global_setup')]       # sentence 1: the child of a layer runs exactly that layer (name equality)
+           + [('runner_sched', 'runner._get_output_buffer'), ('runner_sched', 'runner.ImmediateSubprocessResult.__init__'), ('runner_sched', 'runner.ImmediateSubprocessResult.write')],   # the third collector: bytes in, bytes out, no exception
     'C14': [('find_c14', f) for f in ('find.strip_py_ext', 'find.contains_init_py', 'find.find_test_files_',
                                       'find.find_test_files', 'find.find_suites', 'find.test_dirs',
                                       'options.get_options@prefix')]
@@ -131,10 +134,12 @@ MANIFEST = {
                 "test-execution site (set-up set == layer + transitive bases), the key leaves setup_layers on every path after "
                 "its tearDown attempt, CanNotTearDown only when not optional, nothing left set up when Runner.run_tests "
                 "returns, no run_layer after a refused tearDown; 'the test's layer' is the nearest declaration and the test is "
-                "registered under that layer's own name (tests_from_suite == FLAT, find_tests placement). A bounded oracle on "
-                "the real Runner replays failures.",
+                "registered under that layer's own name (tests_from_suite == FLAT, find_tests placement); a child process registers "
+                "at most the layer it was started for (Filter.global_setup, string equality) and finds it by the name the parent "
+                "computed (name_from_layer / layer_from_name verified over the shared name cache, emptied at the start of every run). "
+                "A bounded oracle on the real Runner replays failures.",
         'note': COMMON_NOTE + "Assumed: hook contracts (return or raise; cannot reach setup_layers), acyclic __bases__; "
-                "in a child process at most the resumed layer is registered (post of Filter.global_setup); a spawned child "
+                "no two layers share module and name (then the names are a key); a spawned child "
                 "starts with nothing set up (OS); 'tearDown attempted exactly once' is proved as 'the key is removed on every "
                 "path right after the single tearDown call site', not over a ghost event log.",
     },
@@ -148,7 +153,10 @@ MANIFEST = {
                 "incompletely, and exactly the reported names otherwise (for arbitrary child output); whatever a test module raises "
                 "on import or in test_suite() (any BaseException but KeyboardInterrupt) becomes an import error (find_suites); "
                 "Runner.run reaches feature.report() -- in a child the result channel -- only after a test phase that ended "
-                "normally. resume_tests (the scheduler) is an assumed contract here, bounded by the native oracle.",
+                "normally; handle_layer_failure records the failure on every normal return even when printing it raises (second "
+                "contract without the formatter assumption); the immediate collector copies a child's bytes to a stream that "
+                "takes bytes, so copying can never raise and fail a passing layer. resume_tests (the scheduler) is an assumed "
+                "contract here, bounded by the native oracle.",
         'note': COMMON_NOTE + "Not decided here: OS exit status; child report transfer (see C07); --post-mortem runs end "
                 "with EndRun and return 'passed' by upstream's documented behaviour (testrunner-debugging.rst). Known "
                 "findings: header-like / unterminated stderr noise (unframed child protocol).",
@@ -256,7 +264,9 @@ MANIFEST = {
                 "--keepbytecode is off), completeness and soundness invariants per directory (every orphan among the files "
                 "seen is unlinked; only such orphans are), nothing unlinked under --keepbytecode; string-level leaf lemmas "
                 "(file[-4:] == '.pyc' <=> endswith; file[:-1] is the same-named .py) proved in the z3 sequence theory; "
-                "get_options tail: --usecompiled implies --keepbytecode.",
+                "get_options tail: --usecompiled implies --keepbytecode; the clean-up prunes nothing but __pycache__ from the walk "
+                "(contract on the pruning statement + frame: `dirs` is changed nowhere else), so every other directory the walk "
+                "offers is searched.",
         'note': COMMON_NOTE + "Assumed: walk_with_symlinks/os.walk semantics incl. in-place pruning of __pycache__ and ignored "
                 "directories; os.unlink removes exactly its argument.",
     },
@@ -362,7 +372,10 @@ MANIFEST = {
                 "test == suite_item(tests, i) in run_tests), runs every yielded layer unless stopped on purpose; the listing "
                 "iterates the same ordered_layers() and passes each group to the formatter; Listing.global_setup clears "
                 "do_run_tests and Runner.run calls run_tests only under it (no test or layer code under --list-tests); a "
-                "child is started with --resume-layer <name>, the parent's defaults and its original arguments.",
+                "child is started with --resume-layer <name>, the parent's defaults and its original arguments, in the directory the "
+                "run was started from (run_internal -> Runner.__init__ -> resume_tests -> Thread -> Popen(cwd=...), one call-site "
+                "clause per link), and finds its layer by the parent's name (name_from_layer / layer_from_name over the name cache, "
+                "which Runner.run empties first).",
         'note': COMMON_NOTE + "Not decided: that a child process discovers the same files (OS); that user code does not run a "
                 "test itself; 'exactly one process' rests on Filter's child post (only the resumed layer) plus the run "
                 "loop handing each remaining layer to exactly one spawn (resume_tests: see C06). Assumed: two registered "
